@@ -212,6 +212,34 @@ pub fn test_tool(case: &DictCase) -> TestResult {
         )
         .into());
     }
+    // replacing with a file that holds no record removes the dictionary (what the library's
+    // replace_dictionary(vec![]) does)
+    if spec.dict.len() % 3 == 1 || spec.dict.len() > 1000 {
+        let none = dir.path("none.csv");
+        let mut without = spec.clone();
+        without.dict.clear();
+        let want = without.to_bytes();
+        for (label, content) in [("a header-only file", "word,weights,comment\n"), ("an empty file", "")] {
+            std::fs::write(&none, content).map_err(|e| e.to_string())?;
+            let _ = std::fs::remove_file(&mout);
+            let r = util::run_tool(
+                "manipulate_model",
+                &["--model-in".into(), s(&min), "--replace-dict".into(), s(&none), "--model-out".into(), s(&mout)],
+                b"",
+            )?;
+            ensure!(!r.stderr.contains("panicked"), "tool panics on {label}: {}", r.stderr);
+            if r.code != Some(0) {
+                // refusing a file without records is acceptable; silently keeping the old
+                // dictionary is not
+                continue;
+            }
+            let out = util::zstd_decode(&std::fs::read(&mout).map_err(|e| format!("no output model: {e}"))?)?;
+            if out != want {
+                let got = ModelSpec::from_bytes(&out).map(|x| x.0.dict).ok();
+                return Err(format!("--replace-dict with {label} exits with 0 but the output model still has the dictionary {got:?}").into());
+            }
+        }
+    }
     // a row whose weight count does not match the word is rejected
     let mut rejected_checked = false;
     if let Some((w, ws)) = &case.bad_row {
